@@ -271,6 +271,7 @@ let () =
   try
     while true do
       let line = input_line stdin in
-      if line <> "" then print_endline (try run line with e -> "model-exception " ^ Printexc.to_string e)
+      (* exactly one output line per input line, whatever the input *)
+      print_endline (if line = "" then "empty" else (try run line with e -> "model-exception " ^ Printexc.to_string e))
     done
   with End_of_file -> ()
